@@ -21,6 +21,11 @@ MD_TEXT = ['*x*', '**b**', '# h', '## h2 ##', '- li', '* li\n* li2', '1. one', '
            'é ß ٣', '_u_ __s__', '***', '| a | b |', '```', 'x `y', '"q" \'s\'', 'klzzwxh:0001', '{: #i }']
 
 
+OPEN_PIECES = [('<li>one\n<li>two', ['li']), ('<p>intro', ['p']), ('<tr><td>a<td>b\n<tr><td>c<td>*d*', ['tr', 'td']), ('<dt>t<dd>*d*', ['dt', 'dd']),
+               ('<option>o', ['option']), ('<b>bold', ['b']), ('<span><em>u</span></em>', ['em']), ('<img src="a.png"><br>\n<input name="q">', ['img', 'br', 'input']),
+               ('<p>a\n\n<p>b', ['p']), ('<li><p>x<br>', ['li', 'p', 'br'])]
+
+
 def attr(rng):
     n = rng.choice(NAMES)
     k = rng.random()
@@ -133,6 +138,12 @@ def content(rng, depth, maxdepth=3, enclosing=()):
         elif k < 0.84: out.append(inline_elem(rng))
         elif k < 0.88: out.append(void(rng))
         elif k < 0.9: out.append('<br>')
+        elif k < 0.96: out.append(cdata_element(rng, enclosing))
+        elif k < 0.98 and enclosing:
+            # legal HTML that leaves out optional end tags / void elements / mis-nested inline tags: the enclosing element still ends at its own
+            # end tag (the stack of open tags is unwound down to the matching name) -- provided no unclosed name equals an enclosing one
+            cand = [t for t, open_names in OPEN_PIECES if not (set(open_names) & set(n.lower() for n in enclosing))]
+            out.append(rng.choice(cand) if cand else 'Ro')
         else: out.append(rng.choice(MD_TEXT))
     return out
 
@@ -162,9 +173,17 @@ def element(rng, depth=1, maxdepth=3, tag=None, enclosing=()):
     return wrap(st + first + body + rng.choice(['\n', '\n', '\n\n']) + en)
 
 
-def cdata_element(rng):
+def cdata_element(rng, enclosing=None):
+    """`<script>` / `<style>` element.  Top level (enclosing None): tag-free text, or text that mentions start / end tags of block elements.
+    NESTED in an open raw block (enclosing = names of the open elements, innermost first): the text mentions start and end tags of the
+    ENCLOSING elements (`<div>\n<script>\ndocument.write("<p>*x*</p></div>");\n</script>\n*x*\n</div>`): inside a CDATA content element
+    only its own end tag is markup, also when the element is not the one that opened the raw block."""
     tag = rng.choice(CDATA_TAGS)
     body = rng.choice(['x = 1;', 'a *b* c', 'if (a && b) {}', 'p { color: red }', '/* c */\n\nx', '# h\n- li'])
+    if enclosing is not None or rng.random() < 0.3:
+        soup = tag_soup(rng, enclosing or (), sep=rng.choice([' ', ' ', '', '\n', '\n\n']))
+        body = rng.choice(['document.write("%s");', '/* %s */ p > em { color: red }', "var s = '%s';\nif (a < b && c > d) {}", '%s', '*x*\n%s\n# h',
+                           'x = 1;\n\n%s']) % soup
     return '<' + tag + attrs(rng, 0, 3) + '>' + rng.choice(['', '\n']) + body + rng.choice(['', '\n']) + '</' + tag + '>'
 
 
